@@ -141,11 +141,11 @@ type Val struct {
 	Typ  string // static type string (informational)
 }
 
-func vAff(a *Aff) *Val        { return &Val{K: KAff, A: a} }
-func vInt(c int64) *Val       { return vAff(affConst(c)) }
-func vSym(s string) *Val      { return &Val{K: KSym, S: s} }
-func vConst(s string) *Val    { return &Val{K: KConst, S: s} }
-func vAddr(s string) *Val     { return &Val{K: KAddr, S: s} }
+func vAff(a *Aff) *Val           { return &Val{K: KAff, A: a} }
+func vInt(c int64) *Val          { return vAff(affConst(c)) }
+func vSym(s string) *Val         { return &Val{K: KSym, S: s} }
+func vConst(s string) *Val       { return &Val{K: KConst, S: s} }
+func vAddr(s string) *Val        { return &Val{K: KAddr, S: s} }
 func vAtom(a *Atom, n bool) *Val { return &Val{K: KAtom, At: a, Neg: n} }
 func vOp(op string, args ...*Val) *Val {
 	var ss []string
